@@ -184,6 +184,9 @@ fn would_block(g: &Inner, tid: usize) -> bool {
 /// Runs one concurrent program. Returns the records (setup, events, returns).
 pub fn run_program(pid: u64, prog: &Value) -> Vec<Value> {
   let mut recs = vec![];
+  recs.push(json!({"op": "conc_begin", "pid": pid, "oc": "ok",
+                   "model": prog["model"].clone(),
+                   "schedule": prog["schedule"].as_array().cloned().unwrap_or_default()}));
   let mut machine = Machine::new();
   for step in prog["setup"].as_array().map(|a| a.as_slice()).unwrap_or(&[]) {
     recs.push(machine.step(pid, step));
